@@ -86,7 +86,9 @@ func c08FeeShape(label string, n int) []bool {
 }
 
 // c08Build stores an arbitrary pre-state of one TSS tunnel with n signals and returns its mirror.
-func c08Build(e *c08Env, n int) *c08State {
+// Signals with index >= Param("full_shapes") always have a latest-price entry and a current feed price (their
+// prices are still arbitrary, including 0); the others enumerate presence/absence of both.
+func c08Build(e *c08Env, n int, pickCreator bool) *c08State {
 	k := e.k
 	st := &c08State{n: n}
 
@@ -104,7 +106,9 @@ func c08Build(e *c08Env, n int) *c08State {
 
 	// tunnel
 	st.active = vs.Bool("is_active")
-	st.creator = vs.Pick("creator", tunNA)
+	if pickCreator {
+		st.creator = vs.Pick("creator", tunNA)
+	}
 	st.seq = vs.U64("sequence")
 	vs.Assume(st.seq < 1<<62)
 	st.interval = vs.U64("interval")
@@ -121,7 +125,7 @@ func c08Build(e *c08Env, n int) *c08State {
 		st.soft, st.hard = append(st.soft, sb), append(st.hard, hb)
 		sds = append(sds, types.NewSignalDeviation(id, su, hu))
 
-		has := vs.Bool("has_latest")
+		has := i >= vs.Param("full_shapes") || vs.Bool("has_latest")
 		op, oe := big.NewInt(0), feedstypes.Price{}
 		if has {
 			u, b := c08U64("latest_price")
@@ -131,7 +135,7 @@ func c08Build(e *c08Env, n int) *c08State {
 		}
 		st.oldHas, st.oldP, st.oldEntry = append(st.oldHas, has), append(st.oldP, op), append(st.oldEntry, oe)
 
-		inf := vs.Bool("in_feeds")
+		inf := i >= vs.Param("full_shapes") || vs.Bool("in_feeds")
 		np := big.NewInt(0)
 		fe := feedstypes.NewPrice(feedstypes.PRICE_STATUS_NOT_IN_CURRENT_FEEDS, id, 0, st.now)
 		if inf {
@@ -356,7 +360,7 @@ func c08CheckProduced(e *c08Env, st *c08State, sel []bool, count uint64, lastInt
 // VerifC08EndBlock: one ProduceActiveTunnelPackets (the tunnel end-blocker) over an arbitrary tunnel state.
 func VerifC08EndBlock() {
 	e := c08Setup()
-	st := c08Build(e, vs.Param("n"))
+	st := c08Build(e, vs.Param("n"), false)
 
 	err := e.k.ProduceActiveTunnelPackets(e.ctx)
 	vs.Assert("end-blocker-never-fails", err == nil)
@@ -410,7 +414,7 @@ func VerifC08EndBlock() {
 // VerifC08Trigger: MsgTriggerTunnel signed by account 0.
 func VerifC08Trigger() {
 	e := c08Setup()
-	st := c08Build(e, vs.Param("n"))
+	st := c08Build(e, vs.Param("n"), true)
 
 	msg := types.NewMsgTriggerTunnel(c08TunnelID+uint64(vs.Pick("target_offset", 2)), tunAcc(0).String())
 	vs.Assume(msg.ValidateBasic() == nil)
